@@ -214,9 +214,49 @@ CONV_NETS = [
 ]
 
 
+def conv_expr(rng, regs, syms, depth):
+    """update-function expression: variables, zero-arity constants, applications of
+    uninterpreted functions (arguments are expressions), negation anywhere, symbols reused"""
+    r = rng.random()
+    if depth == 0 or r < 0.25:
+        if syms.get(0) and rng.random() < 0.3:
+            return rng.choice(syms[0])
+        return rng.choice(regs)
+    if r < 0.45:
+        return "!" + conv_expr(rng, regs, syms, depth - 1)
+    if r < 0.75 and (syms.get(1) or syms.get(2)):
+        ar = rng.choice([a for a in (1, 2) if syms.get(a)])
+        args = [conv_expr(rng, regs, syms, 0 if rng.random() < 0.7 else 1) for _ in range(ar)]
+        return "%s(%s)" % (rng.choice(syms[ar]), ", ".join(args))
+    op = rng.choice(["&", "|", "^", "=>", "<=>"])
+    return "(%s %s %s)" % (conv_expr(rng, regs, syms, depth - 1), op, conv_expr(rng, regs, syms, depth - 1))
+
+
+def random_conv_network(rng):
+    n = rng.randint(2, 3)
+    names = ["a", "b", "c"][:n]
+    # one symbol per arity at most twice: the same symbol occurs several times, in both polarities
+    syms = {0: rng.sample(["p", "q"], rng.randint(0, 1)), 1: rng.sample(["f", "g"], rng.randint(1, 2)),
+            2: rng.sample(["h"], rng.randint(0, 1))}
+    lines = []
+    for t in names:
+        regs = [r for r in names if rng.random() < 0.7] or [rng.choice(names)]
+        for r_ in regs:
+            lines.append("%s -?? %s" % (r_, t))
+        if rng.random() < 0.8:
+            lines.append("$%s: %s" % (t, conv_expr(rng, regs, syms, rng.randint(1, 3))))
+    return "\n".join(lines) + "\n"
+
+
 def gen_C19(chk):
     rng = chk.rng
     nets = list(CONV_NETS)
+    # the same uninterpreted symbol in both polarities / several times / in several targets
+    nets += ["b -?? a\nc -?? a\n$a: f(b) & !f(c)\n", "b -?? a\n$a: (p & b) | (!p & !b)\n",
+             "a -?? b\na -?? c\nb -?? c\n$b: f(a)\n$c: f(a) => !f(b)\n", "b -?? a\n$a: !f(b)\n",
+             "b -?? a\nc -?? a\n$a: !h(b, !c) ^ h(c, b)\n"]
+    for i in range(cnt(chk, 40, 160)):
+        nets.append(random_conv_network(rng))
     for i in range(cnt(chk, 20, 60)):
         nets.append(gen.random_network(rng, max_n=3, max_bits=10))
     # constants named like the synthetic row constants of a function of the same network
